@@ -220,7 +220,8 @@ def run_unit(unit, mode, outdir, extra=()):
         # Solver-instability guard: an obligation counts as failed only if it fails under every solver seed tried.
         # Sound in the direction that matters: one accepted run is a proof; a real violation fails under every seed.
         retried = []
-        if r['status'] == 'fail' and not extra and not os.environ.get('VERIF_NORETRY'):
+        rlimit_only = r['status'] == 'inconclusive' and r.get('tool_errors') and all(str(e).startswith('rlimit') for e in r['tool_errors'])
+        if (r['status'] == 'fail' or rlimit_only) and not extra and not os.environ.get('VERIF_NORETRY'):
             for sd in RETRY_SEEDS:
                 js2, diags2, raw2, wall2, cmd2 = run_verus(path, extra=['--smt-option', 'smt.random_seed=%d' % sd])
                 if raw2 == 'timeout' and js2 is None:
